@@ -9,6 +9,7 @@ INVARIANT TypeOK
 INVARIANT SymmetryConsistent
 INVARIANT OrbitClosure
 INVARIANT CopiesRotatedIntoPlace
+INVARIANT DispIsRotation
 INVARIANT UniqueNames
 INVARIANT ZonesFollowSources
 INVARIANT EditsAreTemporary
